@@ -5,13 +5,17 @@ import samplib as S
 
 PID = "C07"
 LEVEL = "proof"
-COQ_TARGETS = ["Props/C07.vo", "Props/C07_fp.vo"]
-PROPS_FILES = ["C07", "C07_fp"]
-THEOREMS = ["C07_fingerprints", ]
+COQ_TARGETS = ["Props/C07.vo", "Props/C07_fp.vo", "Props/C07_fl.vo"]
+PROPS_FILES = ["C07", "C07_fp", "C07_fl"]
+THEOREMS = ["C07_fingerprints", "C07_from_zscore_fl_def", "C07_from_zscore_fl_value", "C07_from_zscore_fl_error", "C07_scale_pow2_exact",
+            "C07_from_zscore_fl_nan", "C07_from_zscore_fl_z_inf", "C07_from_zscore_fl_sd_zero"]
 TRUSTED_BASE = [
     "Coq 8.16.1 kernel; Proofs/Equivariance.v: on the sampler models (coq/Model/Continuous.v, tied to the code by C01's pathwise "
     "correspondence) the decision tree for (loc, scale) is the decision tree of the standard sampler with the affine expression applied at "
     "the leaves: same decisions, same words, value = loc + scale * standard value",
+    "Props/C07_fl.v (Flocq BinarySingleNaN; Proofs/AffineFl.v): the IEEE program Bplus mean (Bmult sd z) of Normal::from_zscore - value = nested "
+    "rounding, error bound u|m+sz| + u(2+u)|sz| + (1+u)eta against the real affine map, exact power-of-two scaling, NaN / infinity / sd = 0 cases; "
+    "Flocq's model of IEEE-754 binary arithmetic is trusted to describe the hardware + and *",
     "direct oracle on the real crate (independent of the model): paired sample() calls on identical word streams; where the code applies the "
     "map as its last IEEE operations the transformed bits are recomputed exactly from the standard bits (round-to-nearest f32/f64 arithmetic "
     "in python; double rounding through binary64 is innocuous for binary32 + - * /), elsewhere within a stated ulp budget; word counts equal",
